@@ -650,6 +650,31 @@ func (e *Env) callExpr(n *ast.CallExpr) Val {
 		return sub.eval(n.Args[0])
 	case "forall", "exists":
 		return e.quant(name, n)
+	case "forallstr":
+		// forallstr(s, body): universal quantifier over strings
+		id, ok := n.Args[0].(*ast.Ident)
+		if !ok || len(n.Args) != 2 {
+			e.fail("forallstr(s, body)")
+		}
+		u.nfresh++
+		k := fmt.Sprintf("%s!q%d", id.Name, u.nfresh)
+		sub := e.clone()
+		sub.vars[id.Name] = Val{T: k, Ty: types.Typ[types.String], S: "Str"}
+		return bval(fmt.Sprintf("(forall ((%s Str)) %s)", k, sub.evalBool(n.Args[1])))
+	case "contains":
+		// contains(a, b): substring test; decided here when both are literals
+		a, b := arg(0), arg(1)
+		la, oka := litOf(so, a.T)
+		lb, okb := litOf(so, b.T)
+		if oka && okb {
+			if strings.Contains(la, lb) {
+				return bval("true")
+			}
+			return bval("false")
+		}
+		u.declFuns["strcontains"] = true
+		u.axiomsFor("strcontains")
+		return bval(app("strcontains", a.T, b.T))
 	case "forallint":
 		// forallint(t, body): unbounded universal quantifier over the integers
 		id, ok := n.Args[0].(*ast.Ident)
@@ -959,8 +984,20 @@ func (u *Unit) useUF(d *UFDecl) {
 			u.useUF(dd)
 		}
 	}
+	u.axiomsFor(d.Name)
+}
+
+// axiomsFor adds the library axioms triggered by function name (once all their triggers are in use).
+func (u *Unit) axiomsFor(name string) {
+	if u.axiomsDone == nil {
+		u.axiomsDone = map[string]bool{}
+	}
+	d := struct{ Name string }{name}
 	// add axioms triggered by this UF once all their triggers are declared
 	for _, ax := range u.eng.lib.Axioms {
+		if u.axiomsDone[ax.Name] {
+			continue
+		}
 		if ax.Lemma {
 			continue
 		}
@@ -975,6 +1012,7 @@ func (u *Unit) useUF(d *UFDecl) {
 			}
 		}
 		if all && mine {
+			u.axiomsDone[ax.Name] = true
 			if ax.Raw != "" {
 				u.emit("(assert " + ax.Raw + ")")
 			} else {
@@ -1287,4 +1325,13 @@ func firstSelectWith(body, j string) string {
 		}
 	}
 	return ""
+}
+
+func litOf(so *Sorts, name string) (string, bool) {
+	for l, n := range so.strLits {
+		if n == name {
+			return l, true
+		}
+	}
+	return "", false
 }
